@@ -92,6 +92,10 @@ def compare(ctx, sc, pre=None):
         return a, il, files, "system-call trace differs at event %d: real stack %r, model %r" % (k, ti[k:k + 3], tm[k:k + 3])
     return a, il, files, None
 
+def rc_ok(il):
+    """the scenario ran to its end without an exception"""
+    return not any(l.startswith(("throw", "CRASH")) for l in il)
+
 def _decomp(comp, data):
     import p_C14
     return data if comp == "none" else p_C14.decompress_strict(comp, data)
@@ -126,6 +130,24 @@ def section(ctx, scs, prefix, crash=False, against_plain=False):
                 try: got = _decomp(sc["comp"], data)
                 except Exception as e: why.append("output %s is not one complete %s stream: %s" % (fn, sc["comp"], e)); break
                 if got != pfiles.get(pfn): why.append("output %s decompresses to %d bytes; the same history uncompressed produced %d" % (fn, len(got), len(pfiles.get(pfn, b"")))); break
+        # every output the finished run CLOSED (by a rotation, or by destruction) must by itself be empty or one complete C-DNS document - one
+        # well-formed CBOR item, a 3-element array, nothing after it - whatever model and implementation agree or disagree on (an independent
+        # statement of "complete": the crash oracle below compares with the finished run's own files and would accept a defect they share)
+        if rc_ok(il):
+            import refcbor
+            for fn, data in sorted(files.items()):
+                if fn.endswith(".part") or fn.startswith("."): continue
+                closed = sc["kind"] == "name" or ("ev close " + fn) in il
+                if not closed: continue
+                if fn == pre_name and data == pre_data: continue            # the older file the scenario started with, untouched
+                try: plain = _decomp(sc["comp"], data) if data else b""
+                except Exception as e: why.append("closed output %s is not one complete %s stream: %s" % (fn, sc["comp"], e)); break
+                if not plain: continue
+                try:
+                    t = refcbor.parse_all(plain)
+                    if t[0] != "a" or len(t[1]) != 3: raise refcbor.Malformed("not a 3-element array")
+                except Exception as e:
+                    why.append("closed output %s (%d bytes%s) is not one complete C-DNS document: %s" % (fn, len(plain), " after decompression" if sc["comp"] != "none" else "", e)); break
         if crash and d is None:
             final = {}
             for fn, data in files.items():
